@@ -10,6 +10,7 @@ import (
 	"github.com/paulmach/orb/planar"
 
 	"verif/lib/ev"
+	"verif/lib/exact"
 	"verif/lib/mc"
 )
 
@@ -463,6 +464,68 @@ func main() {
 			if !relClose(cen[0], wx, 12*scale) || !relClose(cen[1], wy, 12*scale) {
 				c.Failf("collection-kinds-centroid", "centroid(collection) = %v, exact area-weighted mean = (%v,%v) | transform=%q collection=%v", cen, wx, wy, transforms[t].name, col)
 			}
+		}
+	})
+
+	// long segments: the distance to a segment a million units long from points a lattice step off its line.
+	// Formulas that subtract two nearly equal large numbers lose all their digits here; the comparison is
+	// relative 1e-9 against the exact rational value (the property's bound for this lattice)
+	ext := []int64{0, 1<<20 - 1, -(1<<20 - 1), 1<<20 - 4, 349525, -699050, 1 << 19, 3}
+	r.Explore("long-segments", fmt.Sprintf("segments between all pairs of %d^2 far lattice points x 7 positions along the segment (before, at, thirds, past the ends) x 9 offsets of <= 1 lattice step: DistanceFrom / DistanceFromSegment / ring and line forms within 1e-9 (relative, absolute below 1) of the exact value", len(ext)), mc.Opts{MaxDev: -1, Split: 2}, func(c *mc.Ctx) {
+		a := ipt{ext[c.Choose(len(ext))], ext[c.Choose(len(ext))]}
+		b := ipt{ext[c.Choose(len(ext))], ext[c.Choose(len(ext))]}
+		if a == b {
+			c.Skip()
+			return
+		}
+		num := int64([]int{-1, 0, 1, 2, 3, 4, 5}[c.Choose(7)]) // position = a + (b-a)*num/4, rounded to the lattice
+		off := c.Choose(9)
+		q := ipt{a[0] + (b[0]-a[0])*num/4 + int64(off%3-1), a[1] + (b[1]-a[1])*num/4 + int64(off/3-1)}
+		if q[0] > 1<<20 || q[0] < -(1<<20) || q[1] > 1<<20 || q[1] < -(1<<20) {
+			c.Skip()
+			return
+		}
+		third := ipt{a[0] - 1000, a[1] + 1000}
+		if third[0] < -(1 << 20) {
+			third[0] = a[0] + 1000
+		}
+		if third[1] > 1<<20 {
+			third[1] = a[1] - 1000
+		}
+		want2 := segDist2(a, b, q)
+		want := math.Sqrt(f64(want2))
+		check := func(what string, got float64) {
+			// on the segment the projection point is rounded (coordinates ~1e6, so ~1e-10): as everywhere in this
+			// check, "zero on the boundary" is read within 1e-9
+			if math.Abs(got-want) > 1e-9*math.Max(1, want) {
+				c.Failf("long-segment-distance", "%s = %v, exact %v (relative error %.3g) | a=%v b=%v q=%v", what, got, want, math.Abs(got-want)/want, a, b, q)
+			}
+		}
+		check("DistanceFromSegment", planar.DistanceFromSegment(fpt(a), fpt(b), fpt(q)))
+		if d2 := planar.DistanceFromSegmentSquared(fpt(a), fpt(b), fpt(q)); math.Abs(d2-f64(want2)) > 2e-9*math.Max(1, f64(want2)) {
+			c.Failf("long-segment-distance", "DistanceFromSegmentSquared = %v, exact %v | a=%v b=%v q=%v", d2, f64(want2), a, b, q)
+		}
+		check("DistanceFrom(line string)", planar.DistanceFrom(orb.LineString{fpt(a), fpt(b)}, fpt(q)))
+		// as the long side of a triangle, through every form that holds the ring: the minimum over the three sides
+		for _, side := range [][2]ipt{{b, third}, {third, a}} {
+			if d := segDist2(side[0], side[1], q); d.Cmp(want2) < 0 {
+				want2 = d
+			}
+		}
+		want = math.Sqrt(f64(want2))
+		ring := orb.Ring{fpt(a), fpt(b), fpt(third), fpt(a)}
+		check("DistanceFrom(ring)", planar.DistanceFrom(ring, fpt(q)))
+		check("DistanceFrom(multi-line-string)", planar.DistanceFrom(orb.MultiLineString{orb.LineString(ring)}, fpt(q)))
+		check("DistanceFrom(collection)", planar.DistanceFrom(orb.Collection{orb.LineString(ring)}, fpt(q)))
+		if exact.Area2I([]exact.IP{{a[0], a[1]}, {b[0], b[1]}, {third[0], third[1]}}) != 0 {
+			// a polygon's distance is to its boundary when the point is outside; inside it is negative or zero by orb's
+			// convention only for DistanceFromWithIndex, so the polygon form is compared on the boundary distance
+			if d, _ := planar.DistanceFromWithIndex(orb.MultiPolygon{{ring}}, fpt(q)); math.Abs(math.Abs(d)-want) > 1e-9*math.Max(1, want) {
+				c.Failf("long-segment-distance", "DistanceFromWithIndex(multi-polygon) = %v, exact boundary distance %v | a=%v b=%v q=%v", d, want, a, b, q)
+			}
+		}
+		if want2.Sign() != 0 && want < 2 {
+			c.NonTrivial()
 		}
 	})
 
